@@ -27,7 +27,7 @@ var Themes = []string{
 	"batch-omitted-object", "batch-object-listed-twice", "batch-unknown-oid", "batch-empty-objects-list",
 	"batch-hash-algo", "upload-missing-with-action", "upload-missing-no-action", "adapter-begin-error",
 	"dry-run", "adapter-422", "retry-later", "expired-action", "many-after-abort",
-	"dup-during-delivery",
+	"dup-during-delivery", "exhausted-plus-fresh-in-failed-batch",
 }
 
 func pick(r *rand.Rand, xs ...string) string { return xs[r.Intn(len(xs))] }
@@ -235,6 +235,39 @@ func Gen(seed int64, idx int, prof string) Case {
 			for ; remaining[i] > 0; remaining[i]-- {
 				c.AddOrder = append(c.AddOrder, i)
 			}
+		}
+	case "exhausted-plus-fresh-in-failed-batch":
+		// batch 1 = [A, C]: A fails retriably in the adapter and uses up its budget; batch 2 = [A, B]
+		// with B fresh; the batch call itself then fails. A can no longer be retried, B can.
+		c.Upload = false
+		c.Objs = c.Objs[:0]
+		for i := 0; i < 5+r.Intn(4); i++ {
+			c.Objs = append(c.Objs, Obj{Oid: randOid(r), Size: int64(1 + r.Intn(5000)), Adds: 1})
+		}
+		c.AddOrder = nil
+		for i := range c.Objs {
+			c.AddOrder = append(c.AddOrder, i)
+		}
+		c.BatchSize = 2
+		c.MaxRetries = 1 + r.Intn(2)
+		c.Watchers = r.Intn(2)
+		c.AddGapUs = 0
+		c.ObjBatch = map[string][]string{}
+		c.ExtraUnknown = map[int]string{}
+		var as []string
+		for k := 0; k < c.MaxRetries; k++ {
+			as = append(as, "retry")
+		}
+		c.Adapter = map[string][]string{c.Objs[0].Oid: as}
+		// the first call succeeds, then a run of failing calls: objects that were fresh in one failing
+		// batch are exhausted in the next one, where they meet newly arrived objects
+		c.BatchCalls = []string{"ok"}
+		kind := pick(r, "429", "429:1", "503", "reset")
+		for k := 0; k < 2+r.Intn(3); k++ {
+			c.BatchCalls = append(c.BatchCalls, kind)
+		}
+		if r.Intn(2) == 0 {
+			c.AddGapUs = 500 + r.Intn(4000)
 		}
 	case "adapter-begin-error":
 		c.BeginError = true
